@@ -47,7 +47,7 @@ fn built_v4_iter_one(len: u8, ml: Option<u8>) {
     std::mem::forget(b);
 }
 
-/// @tier quick thorough
+/// @tier off
 /// @fn rpki::repository::roa::RoaBuilder::to_attestation
 ///   rpki::repository::roa::RoaIpAddressesBuilder::to_addresses
 ///   rpki::repository::roa::RoaIpAddresses::iter
@@ -64,3 +64,19 @@ fn built_v4_iter_one(len: u8, ml: Option<u8>) {
 #[kani::proof]
 #[kani::unwind(8)]
 fn roa_built_v4_len24_iterates() { built_v4_iter_one(24, None); }
+
+/// @tier off
+/// @says probe: fully concrete
+#[kani::proof]
+#[kani::unwind(8)]
+fn x_roa_built_concrete() {
+    let x = RoaIpAddress::new_addr(IpAddr::V4(Ipv4Addr::from(0x0a000000u32)), 24, None);
+    let mut b = RoaBuilder::new(Asn::from_u32(64512));
+    b.push_v4(x);
+    let att = b.to_attestation();
+    let mut it = att.v4_addrs().iter();
+    let first = it.next();
+    assert!(first.is_some());
+    std::mem::forget(att);
+    std::mem::forget(b);
+}
